@@ -759,6 +759,8 @@ def gen_inputs(ch: Chooser, prog: Program, specials=True):
             args.append(ch.bool())
         elif t == 'L':
             k = prog.min_len.get(n, 0) + ch.int(0, 3)
+            if ch.bool(0.2):
+                k += ch.int(5, 9)        # long enough that indices/lengths are unrepresentable in the narrow contexts
             args.append([ch.choice(pool) for _ in range(k)])
         elif t == 'T':
             args.append((ch.choice(pool), ch.choice(pool)))
